@@ -2,7 +2,7 @@
     Property theorems only, about the definitions REGENERATED from
     ibicus/utils/_running_window_mode.py (Gen/GenWindows.v). *)
 From Coq Require Import ZArith List Bool Sorted.
-From IV Require Import NP GenWindows C07_proofs Grid Driver Driver_proofs Driver_corollaries YearsDriver_proofs.
+From IV Require Import NP GenWindows C07_proofs Grid Driver Driver_proofs Driver_corollaries YearsDriver_proofs DriverSkip.
 Import ListNotations.
 Open Scope Z_scope.
 
@@ -119,3 +119,26 @@ Example C07_nonvacuous_leap_from_march :
   days_window_centers 15 (NP.arange 4 19 1) = [11] /\
   years_window_centers 3 [2000; 2004] = [2001; 2004].
 Proof. vm_compute. repeat split. Qed.
+
+(** RunningWindowDebiaser.apply_location skips a window that adjusts no time step (a gap in the days of
+    the year of a sub-annual series): the skipping loop returns exactly what the unconditional loop
+    returns, for ANY window method — so every theorem above about [driver] holds of it — ... *)
+Theorem C07_skipping_loop_is_the_loop : forall (V : Type) L S dA (Wc : Z -> list V),
+  driver_skip V L S dA Wc = driver V L S dA Wc.
+Proof. exact driver_skip_eq. Qed.
+Print Assumptions C07_skipping_loop_is_the_loop.
+
+(** ... it consults the window method only at centres that adjust some time step ... *)
+Theorem C07_skipping_loop_evaluates_only_adjusting_windows : forall (V : Type) L S dA (Wc Wc' : Z -> list V),
+  (forall c, In c (evaluated_centres S dA) -> Wc c = Wc' c) ->
+  driver_skip V L S dA Wc = driver_skip V L S dA Wc'.
+Proof. exact driver_skip_ext. Qed.
+Print Assumptions C07_skipping_loop_evaluates_only_adjusting_windows.
+
+(** ... and at each of those the window's slice of the adjusted series is non-empty: the window method
+    is never handed an empty cm_future *)
+Theorem C07_evaluated_window_nonempty : forall L S dA c,
+  0 < S -> S <= L -> (forall d, In d dA -> 1 <= d <= 366) ->
+  In c (evaluated_centres S dA) -> days_indices_in_window L dA c <> [].
+Proof. exact evaluated_window_nonempty. Qed.
+Print Assumptions C07_evaluated_window_nonempty.
